@@ -382,7 +382,8 @@ func runAsync(c AsyncCase) vlib.Result {
 		}(p)
 	}
 	wg.Wait()
-	vlib.WaitUntil(5*time.Second, func() bool {
+	// a long backlog on a busy machine is not a lost function: give up only when nothing has run for 5 s
+	vlib.WaitProgress(5*time.Second, func() bool {
 		for p := range all {
 			for _, r := range all[p] {
 				if atomic.LoadInt32(&r.runs) == 0 {
@@ -391,7 +392,7 @@ func runAsync(c AsyncCase) vlib.Result {
 			}
 		}
 		return true
-	})
+	}, func() int64 { return atomic.LoadInt64(&seq) })
 	time.Sleep(time.Millisecond)
 	if atomic.LoadInt32(&overlap) != 0 {
 		res.Err = fmt.Errorf("two Async functions ran at the same time")
@@ -402,7 +403,7 @@ func runAsync(c AsyncCase) vlib.Result {
 		for i, r := range all[p] {
 			n := atomic.LoadInt32(&r.runs)
 			if n != 1 {
-				res.Err = fmt.Errorf("producer %d function %d ran %d times (want exactly once; waited 5 s)", p, i, n)
+				res.Err = fmt.Errorf("producer %d function %d ran %d times (want exactly once; nothing has run for 5 s)", p, i, n)
 				return res
 			}
 			if s := atomic.LoadInt64(&r.seq); s < last {
@@ -503,8 +504,8 @@ func runBursts(c BurstCase) vlib.Result {
 		}
 		close(g2)
 		want := atomic.LoadInt64(&submitted)
-		if !vlib.WaitUntil(10*time.Second, func() bool { return atomic.LoadInt64(&seq) >= want }) {
-			res.Err = fmt.Errorf("phase %d: %d functions submitted, only %d ran within 10 s", pi, want, atomic.LoadInt64(&seq))
+		if !vlib.WaitProgress(10*time.Second, func() bool { return atomic.LoadInt64(&seq) >= want }, func() int64 { return atomic.LoadInt64(&seq) }) {
+			res.Err = fmt.Errorf("phase %d: %d functions submitted, only %d ran and nothing more for 10 s", pi, want, atomic.LoadInt64(&seq))
 			return res
 		}
 		// the drainer ends its lifetime here (queue empty); give it a moment so that the next phase starts a new one
